@@ -78,6 +78,9 @@ class Variant:
 
     @property
     def binary(self):
+        if os.environ.get("VERIF_REPO") or os.environ.get("VP_RUN_REPO"):
+            # built against a snapshot / scratch copy of the repository: never in the place of the real build's binary
+            return os.path.join(WORK, "bin-alt", "verif-harness-" + self.name)
         if self.name == "default":
             return os.path.join(self.target_dir, "release", "verif-harness")
         return os.path.join(WORK, "bin", "verif-harness-" + self.name)
